@@ -45,7 +45,7 @@ def scenarios(quick):
                 S.append({'group': group, 'calls': list(calls), 'variant': v, 'prefill': prefill})
     a1, a2, a3 = C('athlon_score', 'M', '100', 10.5), C('athlon_score', 'F', 'WT', 12.0), C('athlon_score', 'M', 'LJ', 7.1, age=50)
     p1, p2 = C('athlon_performance_needed', 'M', '100', 1000), C('athlon_performance_needed', 'F', 'HJ', 800)
-    add('athlon', [(a1, a2), (a1, a1), (a1, p2), (p1, p2), (a3, a2), (p1, a1)])
+    add('athlon', [(a1, a2), (a1, a1), (a1, p2), (p1, p2), (a3, a2), (p1, a1)] if not quick else [(a1, a2), (a1, p2), (p1, p2), (a3, a2)])
     h1, h2 = C('hungarian_score', 'M', 'OUT', '100', 10.5), C('hungarian_score', 'F', 'IND', 'HJ', 1.8)
     add('hungarian', [(h1, h2), (h1, h1), (h2, h1)])
     s1, s2 = C('sportshall_score', 'SLJ', '2.10'), C('sportshall_score', '800', '150')
@@ -54,7 +54,9 @@ def scenarios(quick):
     w3, w4 = C('wma_age_grade', 'm', 60, '5K', '20:00'), C('wma_world_best', 'f', '10K')
     w5, w6 = C('wma_age_factor', 'm', 55, '7K'), C('wma_world_best', 'm', '7K')
     w7 = C('wma_age_factor', 'f', 45, '200', year=2015)
-    add('wma', [(w1, w2), (w1, w1), (w1, w3), (w3, w4), (w5, w2), (w5, w6), (w6, w1), (w3, w5), (w7, C('wma_age_factor', 'm', 80, 'HJ', year=2015))])
+    w8 = C('wma_age_factor', 'm', 80, 'HJ', year=2015)
+    add('wma', [(w1, w2), (w1, w1), (w1, w3), (w3, w4), (w5, w2), (w5, w6), (w6, w1), (w3, w5), (w7, w8)] if not quick else
+        [(w1, w2), (w1, w3), (w3, w4), (w5, w6), (w6, w1), (w7, w8)])
     g1, g2, g3 = C('wma_athlon_age_factor', 'M', 50, '100'), C('wma_athlon_age_factor', 'F', 60, 'LJ'), C('wma_athlon_age_grade', 'M', 66, '60H', '9.9')
     add('wma_athlon', [(g1, g2), (g1, g1), (g3, g2)])
     sv = lambda f, v='Draft4Validator', ef=False: C('schema_valid', f, v, ef=ef)
@@ -142,7 +144,9 @@ def _execute(arg):
     sc, segments = arg
     _prepare(sc)
     fns = [(lambda c=c: _call(c)) for c in sc['calls']]
-    ctl = sched.Controlled(fns, os.path.join(common.REPO, 'athlib'), snapshot=_snapshot)
+    # every source line inside athlib is a yield point, except for the validation caches, where the schema
+    # resolver calls back into athlib thousands of times: there the AST-detected visible lines are used
+    ctl = sched.Controlled(fns, os.path.join(common.REPO, 'athlib'), snapshot=_snapshot, all_lines=sc['group'] != 'cache')
     results, executed = ctl.run(segments)
     snaps = sorted({s for _, _, s in ctl.trace})
     return {'results': [_norm(r) for r in results], 'executed': executed, 'snaps': snaps,
@@ -172,10 +176,38 @@ def tail_schedules(sc, counts, window=10):
     return out
 
 
-def schedules_for(sc, counts, max_preempt, rng, cap):
-    """All schedules with <= max_preempt forced pre-emptions; counts[order] = steps per thread when
-    the threads run to completion in that order."""
+def candidate_points(steps, limit):
+    """Pre-emption points for one thread: steps = its 'file:line' positions when it runs first.  All points when
+    there are at most `limit`; otherwise every point on an AST-visible line (bounded) plus an even spread -
+    long loops over thread-local data are thinned, the lines touching shared names are all kept."""
+    n = len(steps)
+    if n <= limit:
+        return list(range(0, n + 1))
+    keep = {0, n}
+    vis = []
+    for k, w in enumerate(steps):
+        fn, _, ln = w.rpartition(':')
+        v = None
+        for sub in ('', 'wma', 'uka'):
+            pth = os.path.join(common.REPO, 'athlib', sub, fn)
+            if os.path.exists(pth):
+                v = sched.visible_lines(pth)
+                break
+        if v and ln.isdigit() and int(ln) in v:
+            vis.append(k)
+    if len(vis) > limit:
+        vis = vis[::len(vis) // limit + 1]
+    keep.update(vis)
+    keep.update(k + 1 for k in vis)
+    keep.update(range(0, n + 1, max(1, n // limit)))
+    return sorted(k for k in keep if 0 <= k <= n)
+
+
+def schedules_for(sc, counts, max_preempt, rng, cap, points=None):
+    """All schedules with <= max_preempt forced pre-emptions; counts[t] = steps of thread t when it runs first;
+    points[t] = the candidate pre-emption points of thread t (default: every step)."""
     n = len(sc['calls'])
+    points = points or {t: list(range(0, counts[t] + 1)) for t in range(n)}
     out = []
     for order in itertools.permutations(range(n)):
         out.append([(t, None) for t in order])
@@ -184,8 +216,7 @@ def schedules_for(sc, counts, max_preempt, rng, cap):
             for other in range(n):
                 if other == first:
                     continue
-                nf = counts[first]
-                for k in range(0, nf + 1):
+                for k in points[first]:
                     out.append([(first, k), (other, None), (first, None)])
     if max_preempt >= 2:
         two = []
@@ -193,8 +224,8 @@ def schedules_for(sc, counts, max_preempt, rng, cap):
             for other in range(n):
                 if other == first:
                     continue
-                for k1 in range(0, counts[first] + 1):
-                    for k2 in range(1, counts[other] + 1):
+                for k1 in points[first][::max(1, len(points[first]) // 60)]:
+                    for k2 in [k for k in points[other][::max(1, len(points[other]) // 60)] if k >= 1]:
                         two.append([(first, k1), (other, k2), (first, None), (other, None)])
                         if n == 3:
                             third = 3 - first - other
@@ -238,15 +269,17 @@ def run(tier):
             it = iter(probes)
             jobs = []
             for s in S:
-                counts = {}
+                counts, points = {}, {}
                 for f in range(len(s['calls'])):
                     ex = next(it)
                     counts[f] = sum(1 for t in ex['executed'] if t == f)
+                    lim = (45 if s['variant'] == 'cold' else 12) if quick else 600
+                    points[f] = candidate_points([w for t, w in ex['steps'] if t == f][1:], lim)
                 s['counts'] = counts
-                # the bounded-cache race needs two switches (iterator made, other thread inserts, next()):
-                # the cache scenarios get a sample of two-pre-emption schedules even in the quick tier
-                for seg in schedules_for(s, counts, 1 if quick else 2, rng, 400 if len(s['calls']) == 2 else 1200):
+                for seg in schedules_for(s, counts, 1 if quick else 2, rng, 400 if len(s['calls']) == 2 else 1200, points):
                     jobs.append((s, seg))
+                # the bounded-cache race needs two switches (iterator made, other thread pops, next()):
+                # complete over the last ten visible lines of each call
                 if s['group'] == 'cache' and len(s['calls']) == 2:
                     for seg in tail_schedules(s, counts):
                         jobs.append((s, seg))
